@@ -60,8 +60,11 @@ fn check_container(target: Target, path: &std::path::Path, set: &vt::model::Tile
 			ensure_prop!(got.get(k) == Some(val), "layout:meta-key", "{ctx}: metadata key {k:?} is {:?}, source {:?}", got.get(k), val);
 		}
 	}
-	for n in &dec.notes {
-		obs.label(format!("note:{}", n.split(' ').take(3).collect::<Vec<_>>().join(" ")));
+	// conformance remarks of the independent decoder (header counts that disagree with the
+	// directories, root directory beyond the first 16 KiB, tiles outside their block's range, …):
+	// files written by the repository must not give rise to any
+	if let Some(n) = dec.notes.iter().find(|n| !n.starts_with("other ")) {
+		fail!("layout:nonconformant", "{ctx}: the file deviates from the published layout: {n}");
 	}
 	Ok(())
 }
